@@ -164,3 +164,10 @@ Definition C13_rect_stmt : Prop :=
   (forall k a, rrun k a p_rect3_intersect = rrun k a p_rect3_intersection) /\
   (* a 3D box drops its z range when converted to a 2D one *)
   (forall k a, returns (rrun k a p_aabr_from_aabb) 4 (fun b => b 0%nat = a 0%nat /\ b 1%nat = a 1%nat /\ b 2%nat = a 3%nat /\ b 3%nat = a 4%nat)).
+
+(** box -> rectangle (position = min corner, extent = max - min) and element-wise map with an arbitrary closure *)
+Definition C13_misc_stmt : Prop :=
+  (forall k a, rrun k a p_aabr_into_rect = Ret ([], [a 0%nat; a 1%nat; a 2%nat - a 0%nat; a 3%nat - a 1%nat])) /\
+  (forall k a, rrun k a p_aabb_into_rect = Ret ([], [a 0%nat; a 1%nat; a 2%nat; a 3%nat - a 0%nat; a 4%nat - a 1%nat; a 5%nat - a 2%nat])) /\
+  (forall k (F : nat -> list R -> R) a, run (R_ops k) F a p_aabr_map = Ret ([], map (fun x => F 0%nat [x]) (tab 4 a 0))) /\
+  (forall k (F : nat -> list R -> R) a, run (R_ops k) F a p_aabb_map = Ret ([], map (fun x => F 0%nat [x]) (tab 6 a 0))).
